@@ -504,6 +504,55 @@ pub fn check_file_subsets(dir: &Path, case: &Value) -> (Vec<Violation>, u64) {
     (out, evals)
 }
 
+/// (h): projects in which a definition name is used twice (in two named files, with and
+/// without a main component in a third; in a named and an included file). Which definition is
+/// kept is the tool's choice, but it must not depend on the hash seed: same files, same
+/// arguments, same findings.
+pub fn check_duplicate_names(seeds: u64, dir: &Path, case: &Value) -> (Vec<Violation>, u64) {
+    let a = "pragma circom 2.1.4;\ntemplate A() {\n    signal input in;\n    signal output out;\n    out <== in;\n}\nfunction f(q) {\n    return q;\n}\n";
+    let b = "pragma circom 2.1.4;\ntemplate A() {\n    signal input in;\n    signal output out;\n    out <-- in * in * in;\n}\nfunction f(q) {\n    var unused = 1;\n    return q * 2;\n}\n";
+    let c = "pragma circom 2.1.4;\ninclude \"a.circom\";\ntemplate C() {\n    signal input in;\n    signal output out;\n    component x = A();\n    x.in <== in;\n    out <== x.out;\n}\n";
+    let m = "pragma circom 2.1.4;\ntemplate Main() {\n    signal input in;\n    signal output out;\n    out <== in;\n}\ncomponent main = Main();\n";
+    let _ = std::fs::create_dir_all(dir);
+    for (n, t) in [("a.circom", a), ("b.circom", b), ("c.circom", c), ("m.circom", m)] {
+        std::fs::write(dir.join(n), t).expect("write");
+    }
+    let scenarios: [&[&str]; 5] = [&["a.circom", "b.circom"], &["b.circom", "a.circom"], &["a.circom", "b.circom", "m.circom"], &["b.circom", "c.circom"], &["c.circom", "b.circom", "m.circom"]];
+    let mut out = Vec::new();
+    let mut runs = 0u64;
+    for (si, args) in scenarios.iter().enumerate() {
+        let args: Vec<String> = args.iter().map(|s| s.to_string()).collect();
+        let mut reference: Option<(BTreeMap<String, usize>, Vec<(String, String)>)> = None;
+        for seed in 0..seeds {
+            let r = bin(dir, &args, seed);
+            runs += 1;
+            let mut analysed = r.analyzed.clone();
+            analysed.sort();
+            let now = (diag_multiset(&r), analysed);
+            match &reference {
+                None => reference = Some(now),
+                Some(refr) => {
+                    if *refr != now {
+                        let d = diff(&refr.0, &now.0);
+                        let mut c = case.clone();
+                        c["scenario"] = json!(si);
+                        c["seed"] = json!(seed);
+                        out.push(Violation {
+                            signature: format!("hash-seed/duplicate-names/{}", first_id(&d)),
+                            what: format!("{args:?}: a definition name is used twice and the findings depend on the hash seed (seed {seed} vs seed 0)"),
+                            case: c,
+                            expected: "the same findings under every hash seed".into(),
+                            observed: format!("{d}\nanalysed {:?} vs {:?}", refr.1, now.1),
+                        });
+                        break;
+                    }
+                }
+            }
+        }
+    }
+    (out, runs)
+}
+
 pub fn run(run: &Run) {
     run.set_rule(
         "projects = the C03 instantiation digraphs (templates carrying CFG-stage and pass-stage \
@@ -591,6 +640,15 @@ pub fn run(run: &Run) {
         run.set_extra("file_subset_runs", json!(k));
         run.violations(vs);
     }
+    // (h)
+    {
+        let case = json!({"kind": "duplicate-names", "seeds": seeds});
+        run.idle();
+        let (vs, k) = check_duplicate_names(seeds, &root.join("h"), &case);
+        run.eval(k);
+        run.nontrivial(1);
+        run.violations(vs);
+    }
     run.set_extra("max_distinct_analysis_orders_realised_by_seed_sweep", json!(max_orders.load(std::sync::atomic::Ordering::Relaxed)));
     let _ = std::fs::remove_dir_all(&root);
     run.assume("(e) enumerates hash seeds, not all iteration orders of all internal maps: owned and replayable, but not exhaustive; (a)-(d) are exhaustive within their bounds");
@@ -606,6 +664,7 @@ pub fn replay(case: &Value) -> Vec<Violation> {
         Some("unrelated") => check_unrelated(n, edges, &root, case).0,
         Some("pass-corpus") => check_pass_corpus(case["seeds"].as_u64().unwrap_or(64), &root, case).0,
         Some("file-subsets") => check_file_subsets(&root, case).0,
+        Some("duplicate-names") => check_duplicate_names(case["seeds"].as_u64().unwrap_or(16), &root, case).0,
         Some("files-seeds") => check_files_and_seeds(n, edges, case["seeds"].as_u64().unwrap_or(16), &root, case).0,
         _ => {
             let mut v = c03::check_shape(n, edges, &root.join("a"), case).0;
